@@ -93,6 +93,52 @@ Proof.
     rewrite <- (len_peq D OK R (pmul K B) (eqv_peq D _ _ H)) in E. lia.
 Qed.
 
+(* ---- value statements of the remaining small forms *)
+Lemma coef_maxpy_s_raw : forall a b c i, coef (maxpy_s_raw D a b c) i = dsub D (coef c i) (a * coef b i).
+Proof.
+  intros a. induction b as [|bi b IH]; intros c i.
+  - destruct c; cbn [maxpy_s_raw]; rewrite coef_nil; ring.
+  - destruct c as [|ci c]; cbn [maxpy_s_raw].
+    + rewrite coef_nil. revert i. induction (bi :: b) as [|x L IHL]; intros i. cbn [map]. rewrite coef_nil. ring.
+      destruct i; cbn [map]. rewrite !coef_cons_0. ring. rewrite !coef_cons_S. apply IHL.
+    + destruct i. reflexivity. rewrite !coef_cons_S. apply IH.
+Qed.
+(* maxpy(r,a,b,c) with a scalar a: c - a*b *)
+Lemma maxpy_s_spec : forall a b c i, coef (maxpy_s D a b c) i = dsub D (coef c i) (a * coef b i).
+Proof.
+  intros a b c i. unfold maxpy_s. destruct b as [|bi b]. rewrite coef_nil. ring.
+  destruct c as [|ci c].
+  - rewrite (coef_neg D OK), (coef_mul_s D OK), coef_nil. ring.
+  - rewrite (coef_setdegree D OK). apply coef_maxpy_s_raw.
+Qed.
+Lemma modpowx_spec : forall A l i, coef (modpowx D A l) i = if (i <? l)%nat then coef A i else O_.
+Proof.
+  intros. unfold modpowx, assign. rewrite (coef_setdegree D OK), (coef_resize D), (coef_setdegree D OK). reflexivity.
+Qed.
+(* div(R,u,P), mod(R,u,P) with a scalar dividend u and P <> 0 in normal form: u = P * div + mod, deg mod < deg P *)
+Lemma div_mod_sp_spec : forall u P, normal D P -> P <> [] ->
+  eqv [u] (padd (pmul P (div_sp D u P)) (mod_sp D u P)) /\ (degree D (mod_sp D u P) < degree D P)%Z.
+Proof.
+  intros u P NP HP. assert (LP : len P = length P). { unfold ProofsRev.len. rewrite (normal_setdegree_id D OK P NP). reflexivity. }
+  unfold div_sp, mod_sp. destruct (Nat.ltb_spec 1 (length P)) as [H1|H1].
+  - split.
+    + destruct (dis0 D u); rewrite (setdegree_eqv D OK); ring.
+    + rewrite !(degree_len D), LP. pose proof (len_le_length D (setdegree D [u])). pose proof (length_setdegree D [u]). cbn [length] in *. lia.
+  - destruct P as [|c [|c' P']]; [contradiction| |cbn [length] in H1; lia].
+    assert (Nc : c <> O_). { destruct NP as [NP|NP]. discriminate. exact NP. }
+    split.
+    + destruct (dis0 D u) eqn:Eu.
+      * apply (is0_true D OK) in Eu. subst u. transitivity (@nil T).
+        { constructor. intros [|i]; [rewrite coef_cons_0 | rewrite coef_cons_S]; rewrite !coef_nil; reflexivity. }
+        ring.
+      * rewrite (setdegree_eqv D OK). rewrite coef_cons_0. unfold ddiv. rewrite (scal_mul D OK).
+        transitivity [u * (c * dinv D c)]. rewrite (f_inv D OK c Nc).
+        { constructor. intros [|i]; [rewrite !coef_cons_0; ring | reflexivity]. }
+        transitivity (padd [c * (u * dinv D c)] []). 2: reflexivity.
+        constructor. intros [|i]; [rewrite (coef_add D OK), !coef_cons_0, coef_nil; ring | rewrite (coef_add D OK), !coef_cons_S, !coef_nil; ring].
+    + rewrite !(degree_len D), LP. unfold ProofsRev.len. cbn [setdegree length]. lia.
+Qed.
+
 Section Thr.
 Variables (kthr sthr : nat).
 Hypothesis Hk : 1 <= kthr.
